@@ -24,22 +24,36 @@ def ROp.wpat : ROp → Option String
   | .welspecs n .. => some n
   | .wconprod r => some r.pat
   | .wconinje r => some r.pat
+  | .wconhist r => some r.pat
+  | .wconinjh r => some r.pat
   | .welopenW p _ => some p
   | .weltarg p .. => some p
   | .wefac p _ => some p
+  | .wecon p .. => some p
+  | .wtest p .. => some p
   | .compdat p .. => some p
   | .welopenC p .. => some p
+  | .complump p .. => some p
+  | .wpimultC p .. => some p
+  | .wpimultG p .. => some p
   | _ => none
 
 def ROp.setPat (w : String) : ROp → ROp
   | .welspecs _ g i j => .welspecs w g i j
   | .wconprod r => .wconprod { r with pat := w }
   | .wconinje r => .wconinje { r with pat := w }
+  | .wconhist r => .wconhist { r with pat := w }
+  | .wconinjh r => .wconinjh { r with pat := w }
   | .welopenW _ s => .welopenW w s
   | .weltarg _ m v => .weltarg w m v
   | .wefac _ v => .wefac w v
+  | .wecon _ o c wo => .wecon w o c wo
+  | .wtest _ i r n s => .wtest w i r n s
   | .compdat _ i j k1 k2 s => .compdat w i j k1 k2 s
-  | .welopenC _ s i j k => .welopenC w s i j k
+  | .welopenC _ s i j k c1 c2 => .welopenC w s i j k c1 c2
+  | .complump _ i j k1 k2 n => .complump w i j k1 k2 n
+  | .wpimultC _ f i j k c1 c2 => .wpimultC w f i j k c1 c2
+  | .wpimultG _ f => .wpimultG w f
   | r => r
 
 /-- `WellMatcher::sort(matching_wells)`: the matching wells in well (insertion) order. -/
@@ -57,19 +71,25 @@ def substBody (ws : List String) (body : List CKw) : List CKw := body.map (subst
 
 /-- Wells a record reports through `HandlerContext::affected_well` (explicit names/patterns,
 after substitution). -/
-def affectedOp (order : List String) (r : ROp) : List String :=
+def affectedOp (order : List String) (wl : List (String × List String)) (r : ROp) : List String :=
   match r with
   | .wconprod .. | .wconinje .. | .welopenW .. | .weltarg .. | .welopenC .. =>
     match r.wpat with
-    | some p => match wellNames order [] p with
+    | some p => match wellNames order wl [] p with
       | .ok ns => ns
       | .error _ => []
     | none => []
   | _ => []
 
-def affectedKw (order : List String) : CKw → List String
-  | .ops _ rs => rs.flatMap (affectedOp order)
-  | _ => []
+/-- The wells the handlers of a record list report, each record looked at in the state its
+handler sees (well order and well lists may change inside the body). -/
+def affOps (k : Consts) (s : State) : List ROp → List String
+  | [] => []
+  | r :: rs =>
+    affectedOp (names s.p.wells) s.p.wlists r ++
+      (match stepR k [] s r with
+       | .ok s' => affOps k s' rs
+       | .error _ => [])
 
 /-- The body's handlers, run directly (no ACTIONX collection: `for kw in action: handleKeyword`). -/
 def runBody (k : Consts) (s : State) : List CKw → Except Err State
@@ -79,10 +99,21 @@ def runBody (k : Consts) (s : State) : List CKw → Except Err State
     | .error e => .error e
     | .ok s' => runBody k s' r
 
+def affBody (k : Consts) (s : State) : List CKw → List String
+  | [] => []
+  | kw :: r =>
+    (match kw with
+     | .ops _ rs => affOps k s rs
+     | _ => []) ++
+      (match handle k [] s kw with
+       | .ok s' => affBody k s' r
+       | .error _ => [])
+
 def appendAt (bs : List (List CKw)) (n : Nat) (body : List CKw) : List (List CKw) :=
   bs.modify n (· ++ body)
 
-/-- State n after the action: handlers on the stored snapshot, end_report, marker. -/
+/-- State n after the action: handlers on the stored snapshot, the deferred WPIMULT factors of
+the body (a fresh local map), end_report, marker. -/
 def applyAtState (k : Consts) (sn : State) (body : List CKw) (W : List String) : Except Err State :=
   let order := names sn.p.wells
   if !(W.all fun w => order.contains w) then .error .input
@@ -91,8 +122,8 @@ def applyAtState (k : Consts) (sn : State) (body : List CKw) (W : List String) :
     match runBody k sn body' with
     | .error e => .error e
     | .ok s1 =>
-      let aff := body'.flatMap (affectedKw order)
-      .ok { endReport s1 with mark := if aff.isEmpty then sn.mark else sn.mark ++ aff }
+      let aff := affBody k sn body'
+      .ok { closeBlock s1 with mark := if aff.isEmpty then sn.mark else sn.mark ++ aff }
 
 /-- `Schedule::applyAction(n, action, matches)` on (stored blocks, snapshots). -/
 def applyAction (k : Consts) (bs : List (List CKw)) (ss : List State) (n : Nat) (body : List CKw)
